@@ -644,6 +644,8 @@ def ops_of(state, depth, reduced=False):
     for n in uni[:4]:
         if n in present and m.cons_of(n):             # a new object under the name of a connected block
             ops.append(['add_block', n, ([r for r in m.rocks if r != m.binfo[n]['rock']] + [m.binfo[n]['rock']])[0]])
+    for n in upres:                                   # the very object that is already in the grid, added again
+        ops.append(['add_same_block', n])
     for n in upres:
         ops.append(['delete_block', n])
     ops.append(['delete_block', '  x 7'])
@@ -732,6 +734,8 @@ def ops_reduced(state):
         if n in present and m.cons_of(n):
             ops.append(['add_block', n, m.rocks[-1]])
             break
+    for n in [x for x in upres if m.cons_of(x)][:1] + [x for x in upres if not m.cons_of(x)][:1]:
+        ops.append(['add_same_block', n])
     for n in upres:
         ops.append(['delete_block', n])
     if len(present) > 1:
@@ -820,6 +824,8 @@ def op_class(state, op):
         geo = seed_geo(state.seed)
         return 'grid-holds-more-than-the-geometry' if (len(geo.block_name_list) < len(m.blocks) or
                                                        len(geo.block_connection_name_list) < len(m.conns)) else 'any'
+    if k == 'add_same_block':
+        return 'connected' if m.cons_of(op[1]) else 'unconnected'
     if k == 'add_block':
         return ('replace-connected' if m.cons_of(op[1]) else 'replace-unconnected') if op[1] in m.blocks else 'new'
     if k == 'delete_block':
@@ -903,6 +909,8 @@ def apply_impl(state, op):
         g.clean_rocktypes()
     elif k == 'add_block':
         g.add_block(mk_block(g, op[1], op[2], volume=vol_of(op[1]) * (1.5 if op[1] in g.block else 1.0)))
+    elif k == 'add_same_block':
+        g.add_block(g.block[op[1]])
     elif k == 'delete_block':
         if op[1] in g.block:
             state.deleted = ('block', g.block[op[1]])
@@ -981,6 +989,8 @@ def apply_model(state, op, result, notes):
         m.clean_rocktypes()
     elif k == 'add_block':
         m.add_block(op[1], op[2], vol_of(op[1]) * (1.5 if op[1] in m.blocks else 1.0))
+    elif k == 'add_same_block':
+        pass                                        # replacing a block by itself changes nothing
     elif k == 'delete_block':
         m.delete_block(op[1])
     elif k == 'add_connection':
